@@ -79,6 +79,35 @@ TRANSLATOR_TIES = {
                    "(that its text denotes the expression), and the one normalisation (?s:.+?) = (?s:.)+?; that Go's regexp "
                    "reads the text as the model's matcher reads the expression is tied by the scan/delims streams, not by T4",
     },
+    "map_iterations_audited": {
+        "props": ["C02"],
+        "module": "Proofs.MapIter",
+        "claim": "Source tie of the map iterations (translator T5, re-run on every check): every place where the library "
+                 "iterates a Go map - a range over a map value, (reflect.Value).MapKeys, (reflect.Value).MapRange - is listed "
+                 "with go/ssa, and the obligation map_iterations_audited re-checks that each is one of the eight audited sites "
+                 "of Liquid/MapIterFacts.lean (keys sorted before use: SortedMapKeys, ParentTags, makeIterationKeyedMap; every "
+                 "entry copied into a fresh map: Clone, newNodeContext, RenderFile, Convert; a conjunction over all entries: "
+                 "equalMaps); a new map iteration in the source, or an audited sorter that no longer sorts, breaks the check.",
+        "trusted": "translator T5 (translate/mapiter.go, go/ssa, nothing executed) lists ssa.Range instructions over map types and "
+                   "static calls of reflect.Value.MapKeys / MapRange in the library packages; the justification of each audited site "
+                   "(Liquid/MapIterFacts.lean) is a reading of the source, not a proof; iteration reached through other APIs "
+                   "(e.g. fmt printing a map, which sorts keys itself; encoding/json) is not listed",
+    },
+    "global_calls_audited": {
+        "props": ["C02", "C03", "C04"],
+        "module": "Proofs.GlobalCalls",
+        "claim": "Source tie against package-level caches (translator T3, call facts, re-run on every check): every call outside "
+                 "init that hands a package-level variable of the library - its address, or the pointer, map, slice or interface "
+                 "it holds - to a function or method outside the read-only list (regexp, reflect, fmt, strings, strconv, sort, "
+                 "time, ...) is listed with go/ssa, and the obligation global_calls_audited re-checks that only the five audited "
+                 "read-only variables occur (two reflect.Type values, invalidLoc, the two loop sentinels); a sync.Map, sync.Pool "
+                 "or memo table added at package level - state that survives a render and is shared by all goroutines - breaks "
+                 "the check.",
+        "trusted": "translator T3 call facts (translate/writes.go globalCalls, go/ssa, nothing executed): receivers and arguments "
+                   "whose address roots in a package-level variable of the library; callees in the standard-library read-only list are "
+                   "trusted not to write through their arguments; the five audited variables (Liquid/ConcFacts.lean) are justified by "
+                   "reading the callee; state kept in struct fields of the engine or of a template is not covered by this rule",
+    },
 }
 for _name, _t in TRANSLATOR_TIES.items():
     for _pid in _t["props"]:
